@@ -68,11 +68,17 @@ type Env struct {
 
 var sdkConfigDone bool
 
-func NewEnv() *Env {
+// ensureSDKConfig sets the bech32 prefixes once; it must run before the first app.New of the process
+// (addresses rendered earlier stay cached with the default prefix).
+func ensureSDKConfig() {
 	if !sdkConfigDone {
 		app.SetConfig()
 		sdkConfigDone = true
 	}
+}
+
+func NewEnv() *Env {
+	ensureSDKConfig()
 	e := &Env{byAddr: map[string]*Account{}}
 	for i := 0; i < NumAccounts; i++ {
 		priv := secp256k1.GenPrivKeyFromSecret([]byte(fmt.Sprintf("panasim-account-%d", i)))
